@@ -44,6 +44,9 @@ type tcpConnectionActorOptions struct {
 	readFailedHandler vivid.ActorSystemRemotingConnectionReadFailedHandler
 }
 
+// maxFrameLength 单帧消息体的最大长度（4MB），发送端与接收端共用
+const maxFrameLength = 4 * 1024 * 1024
+
 // tcpConnectionActor TCP连接实现
 type tcpConnectionActor struct {
 	options        tcpConnectionActorOptions
@@ -116,10 +119,12 @@ func (c *tcpConnectionActor) onReadConn(ctx vivid.ActorContext) (fatal bool, err
 	}
 
 	// 消息长度超过 4MB 则认为无效
-	if msgLen > 4*1024*1024 {
+	if msgLen > maxFrameLength {
 		ctx.Logger().Warn("invalid message length", log.Int64("length", int64(msgLen)))
-		ctx.TellSelf(c.conn)
-		return false, vivid.ErrorInvalidMessageLength.WithMessage(fmt.Sprintf("length: %d", msgLen))
+		// 帧体未被消费，流已无法重新同步，继续读取只会把帧体字节当作后续帧解析，必须终止该连接
+		err = vivid.ErrorInvalidMessageLength.WithMessage(fmt.Sprintf("length: %d", msgLen))
+		ctx.Kill(ctx.Ref(), false, err.Error())
+		return true, err
 	}
 	msgBuf := make([]byte, msgLen)
 	if _, err := io.ReadFull(reader, msgBuf); err != nil {
